@@ -37,3 +37,16 @@ Theorem C14_mpo_fields_not_established :
   existsb (fun e => match e with LLabelFam _ _ CAstypeIntTolist => true | _ => false end) lmap_mpo = true.
 Proof. vm_compute. split; reflexivity. Qed.
 Print Assumptions C14_mpo_fields_not_established.
+
+(* Container kinds the loaders leave behind (generated from the conversions in the load maps).
+   Asymmetry: Mps.load converts the prefactor with .item(0) (immutable python scalar), TTNS.load stores
+   npload["coeff"] as read: a 0-d ndarray, which TTNS.copy()/metacopy()/to_complex() hand on by reference to
+   every derived state.  Mps.load keeps `qn` as the object ndarray read from the file (in-memory states have
+   a list).  No operation of HEAD writes through either (the round-trip sequences check that derived
+   operations leave the reloaded object unchanged), but any in-place update of coeff / slice-copy of qn would. *)
+Theorem C14_loaded_containers :
+  In ("coeff"%string, KPyScalar) (loaded_containers lmap_mps) /\
+  In ("coeff"%string, KNdArray) (loaded_containers lmap_ttns) /\
+  In ("<labels>"%string, KObjArray) (loaded_containers lmap_mps).
+Proof. vm_compute. repeat split; auto 10. Qed.
+Print Assumptions C14_loaded_containers.
